@@ -160,7 +160,7 @@ class Extractor:
     def parse_block(self, block):
         """parse the directive block of an EXTRACT."""
         d = dict(ret=None, safety=None, spec=None, loops={}, loopstart={}, loopend={}, inserts=[], substs=[], bodyonly=False,
-                 frm=None, to=None, optional=False, rename=None, pub=False, r4=False, replaces=[], pubfields=False, fnend=None, fnstart=None, attr=None, r4tail=False, frm_after=False, to_close=False, expand=[])
+                 frm=None, to=None, optional=False, rename=None, pub=False, r4=False, replaces=[], pubfields=False, fnend=None, fnstart=None, attr=None, r4tail=False, frm_after=False, to_close=False, expand=[], maptail=False, closures=[])
         i = 0
 
         def grab(endmarks):
@@ -203,6 +203,12 @@ class Extractor:
                 d["r4tail"] = True
             elif k == "EXPANDMACRO":
                 d["expand"].append(w[1])
+            elif k == "R10MAPTAIL":
+                d["maptail"] = True
+            elif k == "CLOSURE":
+                # //@ CLOSURE <recv>.<method>  /  head text  /  //@ ENDCLOSURE
+                txt, _ = grab(["ENDCLOSURE"])
+                d["closures"].append((w[1], txt.strip()))
             elif k == "BODYONLY":
                 d["bodyonly"] = True
             elif k == "RENAME":
@@ -461,6 +467,67 @@ class Extractor:
                 if rule in ("R5", "R6", "R7", "R9"):
                     line = src.text.count("\n", 0, toks[h].start) + 1
                     self.lifts.append("%s:%d %s `%s` -> `%s`" % (rel, line, rule, " ".join(want)[:100], " ".join(new.split())[:80]))
+
+        # R8c: annotate the closure passed as the only argument of the unique call `recv.method(|x| ..)` in this item with a
+        # typed parameter list and an `ensures` clause (proof-only text); an expression closure additionally gets braces.
+        # The anchor is the call and the parameter name only, so an edit of the closure body keeps the anchor and is
+        # checked against the clause.
+        for (target, head) in d["closures"]:
+            recv, meth = target.split(".")
+            hits = [k for k in range(a, b - 5) if toks[k].text == recv and toks[k + 1].text == "." and toks[k + 2].text == meth
+                    and toks[k + 3].text == "(" and toks[k + 4].text == "|" and toks[k + 5].kind == "id" and toks[k + 6].text == "|"]
+            if len(hits) != 1:
+                raise LostAnchor("%s: CLOSURE anchor `%s(|x| ..)` found %d times in %s %s" % (rel, target, len(hits), kind, name))
+            k = hits[0]
+            pc = src.tbl[k + 3]
+            s0, s1 = toks[k + 4].start - base, toks[k + 6].end - base
+            pieces.append(Piece(s0, s1, head.replace("$x", toks[k + 5].text), "subst", old=orig[s0:s1], rule="R8"))
+            bump("R8")
+            if not (toks[k + 7].text == "{" and src.tbl[k + 7] == pc - 1):
+                o = toks[k + 7].start - base
+                pieces.append(Piece(o, o, "{ ", "ins"))
+                o = toks[pc].start - base
+                pieces.append(Piece(o, o, " }", "ins"))
+
+        # R10 (tail map): when the function's tail expression is  X.as_ref().map(|v| { BODY }).unwrap_or(D)  it is rewritten to
+        #   match X.as_ref() { Some(v) => { BODY } None => D }
+        # A `return e` inside BODY returns from the closure, whose value is the function's value: same result.
+        if d["maptail"]:
+            if kind != "fn":
+                raise UnitError("R10MAPTAIL on a non-fn item")
+            hits = [k for k in range(body_lo, body_hi - 8) if toks[k + 1].text == "." and toks[k + 2].text == "as_ref" and toks[k + 3].text == "(" and toks[k + 4].text == ")"
+                    and toks[k + 5].text == "." and toks[k + 6].text == "map" and toks[k + 7].text == "(" and toks[k + 8].text == "|"]
+            if len(hits) != 1:
+                raise LostAnchor("%s: R10MAPTAIL: `X.as_ref().map(|v| {..})` found %d times in fn %s" % (rel, len(hits), name))
+            k = hits[0]
+            x = toks[k].text
+            v = toks[k + 9].text
+            if not (toks[k + 10].text == "|" and toks[k + 11].text == "{"):
+                raise UnitError("R10MAPTAIL: closure must be `|v| { .. }`")
+            bo = k + 11
+            bc = src.tbl[bo]
+            mp_close = src.tbl[k + 7]
+            if mp_close != bc + 1:
+                raise UnitError("R10MAPTAIL: unexpected tokens after the closure body")
+            if not (toks[mp_close + 1].text == "." and toks[mp_close + 2].text == "unwrap_or" and toks[mp_close + 3].text == "("):
+                raise LostAnchor("R10MAPTAIL: `.unwrap_or(..)` not found after map(..) in fn %s" % name)
+            uo = mp_close + 3
+            uc = src.tbl[uo]
+            dflt = src.text[toks[uo].end:toks[uc].start]
+            # side condition: tail expression of the function (next token closes the fn body; start of statement)
+            if uc + 1 != body_hi:
+                raise UnitError("R10MAPTAIL: the expression is not the tail expression of fn %s" % name)
+            if toks[k - 1].text not in ("{", ";", "}"):
+                raise UnitError("R10MAPTAIL: the expression does not start a statement in fn %s" % name)
+            # `return e` inside the closure becomes a return from the function: the same value, because the closure result
+            # is the function result (Some(e).unwrap_or(d) == e); `?` would not be, so it must not occur
+            if any(toks[q].text == "?" for q in range(bo, bc)):
+                raise UnitError("R10MAPTAIL: `?` inside the closure of fn %s" % name)
+            s0, s1 = toks[k].start - base, toks[bo].end - base
+            pieces.append(Piece(s0, s1, "match %s.as_ref() { Some(%s) => {" % (x, v), "subst", old=orig[s0:s1], rule="R6"))
+            s0, s1 = toks[bc].start - base, toks[uc].end - base
+            pieces.append(Piece(s0, s1, "} None => %s }" % dflt.strip(), "subst", old=orig[s0:s1], rule="R6"))
+            self.lifts.append("%s: fn %s: tail `%s.as_ref().map(|%s| {..}).unwrap_or(%s)` rewritten to a match (R10)" % (rel, name, x, v, dflt.strip()))
 
         # R10: expansion of a function-local single-arm macro_rules! with ident parameters (the macro is defined in
         # the item itself; the expansion is computed from that definition on every run)
